@@ -257,7 +257,7 @@ def abstract(x: t.Any) -> dict:
     if ty is dict:
         return {'k': 'map', 'f': 'dict', 'ps': [[abstract(k), abstract(v)] for k, v in x.items()]}
     if ty is collections.defaultdict:
-        return {'k': 'map', 'f': 'defaultdict', 'ps': [[abstract(k), abstract(v)] for k, v in x.items()]}
+        return {'k': 'map', 'f': 'ddlist' if x.default_factory is list else 'defaultdict', 'ps': [[abstract(k), abstract(v)] for k, v in x.items()]}
     if ty is collections.OrderedDict:
         return {'k': 'map', 'f': 'ordereddict', 'ps': [[abstract(k), abstract(v)] for k, v in x.items()]}
     if ty is collections.Counter:
@@ -352,6 +352,8 @@ def concretise(a: dict) -> t.Any:
             return types.MappingProxyType(d)
         if f == 'defaultdict':
             return collections.defaultdict(None, d)
+        if f == 'ddlist':
+            return collections.defaultdict(list, d)
         if f == 'ordereddict':
             return collections.OrderedDict(d)
         if f == 'counter':
